@@ -2,6 +2,7 @@
 import random
 LEVEL = "model_checking"
 MODULE = "C09_RangeProve.tla"
+GROUPS = ["rangeproof"]
 TRACE = (MODULE, "C09_trace.cfg")
 REG = dict(category="model_checking",
     text="RangeProof.tla specifies the Borromean range proof from the format in include/secp256k1_rangeproof.h (header codec, Verify, Info, Rewind, MaxSize) and "
@@ -103,8 +104,9 @@ def driver(chk, n_small, n_big):
         if o.get("ret") != 1: continue
         base = {"commit": i["commit"], "gen": i["gen"], "proof": o["proof"], "nonce": i["nonce"]}
         if "extra" in i: base["extra"] = i["extra"]
-        ver.append({"e": "RpVerify", "in": dict(base)})                 # the library's own proof, verified and rewound by TLC
-        if len(o["proof"]) > 3000: continue
+        if s.get("big"):
+            ver.append({"e": "RpVerify", "in": dict(base)})             # 32-ring proof: the library's bytes verified and rewound by TLC
+            continue                                                    # (small calls: Judge does that inside the RpSign event)
         m = dict(base); r = rng.random(); p = list(o["proof"])
         if r < 0.35: bit = rng.randrange(len(p) * 8); p[bit // 8] ^= 1 << (bit % 8); m["proof"] = p
         elif r < 0.5: m["nonce"] = i["nonce2"]
@@ -134,10 +136,6 @@ def run(chk):
     chk.label_of = label
     chk.groups = ["rangeproof"]
     variants = ["std"] if quick else ["std", "verify", "i64", "asan"]
-    # the harness interpreter itself does not free its line/output buffers at exit (harness/vh_main.c); LeakSanitizer would turn that
-    # into a non-zero exit status of the asan build.  Leaks are not part of this property: address/UB checking stays on.
-    import os
-    os.environ.setdefault("ASAN_OPTIONS", "detect_leaks=0")
     chk.build(variants)
     # P: design-level model of the clamp logic (+ a sample of its states replayed on the real static function)
     precs = chk.generate(MODULE, "C09_params.cfg", "params", timeout=1200 if quick else 3000)
@@ -151,7 +149,7 @@ def run(chk):
     # G: sign records with predicted proof bytes and the soundness theorems evaluated by TLC
     recs = chk.generate(MODULE, "C09_gen.cfg", "gen", timeout=2400 if quick else 7200)
     for v in variants:
-        chk.replay(recs, v, "generated range-proof creation records")
+        chk.replay(recs, v, "generated range-proof creation records", soft={"RpSign": ["proof"]}, soft_trace=TRACE)
     # T: library-made proofs verified and rewound by TLC
     events = driver(chk, 24 if quick else 300, 1 if quick else 6)
     chk.validate(events, MODULE, "C09_trace.cfg", "driver", timeout=2400 if quick else 7200)
